@@ -1,6 +1,7 @@
 package http
 
 import (
+	"bytes"
 	"encoding/binary"
 	"fmt"
 	"io"
@@ -20,16 +21,22 @@ func ReadPosMapFrom(r io.Reader) (map[string]ltx.Pos, error) {
 	}
 
 	// Read entries and insert into map.
-	m := make(map[string]ltx.Pos, n)
+	// The count and name lengths come off the wire: let the map and the name
+	// buffers grow with the data actually received.
+	m := make(map[string]ltx.Pos)
 	for i := uint32(0); i < n; i++ {
 		var nameN uint32
 		if err := binary.Read(r, binary.BigEndian, &nameN); err != nil {
 			return nil, err
 		}
-		name := make([]byte, nameN)
-		if _, err := io.ReadFull(r, name); err != nil {
+		var nameBuf bytes.Buffer
+		if k, err := io.CopyN(&nameBuf, r, int64(nameN)); err != nil {
+			if err == io.EOF && k > 0 {
+				err = io.ErrUnexpectedEOF
+			}
 			return nil, err
 		}
+		name := nameBuf.Bytes()
 
 		var pos ltx.Pos
 		if err := binary.Read(r, binary.BigEndian, &pos.TXID); err != nil {
